@@ -114,7 +114,7 @@ def templates(tier="quick"):
     def shq(n):
         import re
         return n if re.fullmatch(r"[A-Za-z0-9_+\-./]+", n) else "'" + n.replace("'", "'\\''") + "'"
-    names = ["a b.o", "c'd.o", "e$$f.o".replace("$$", "$"), "plain.o"]
+    names = ["a b.o", "c'd.o", "e$$f.o".replace("$$", "$"), "plain.o", "..gen/q.o", ".../r.o"]   # (components that merely begin with dots)
     for var, sep in (("$in_newline", "\n"), ("$in", " ")):
         lib = Stmt("lib", ex=names, rsp=("lib.rsp", sep.join(shq(n) for n in names)))
         lib.rsp_manifest = var
